@@ -208,12 +208,18 @@ def r1_user_level(run, w):
       t = H.deref(fn, c.args[0])
       if isinstance(t, ast.Tuple) and len(t.elts) == 3:
         e = [CF(x) for x in t.elts]
-        readback = isinstance(t.elts[2], ast.Call) and isinstance(t.elts[2].func, ast.Attribute) \
-            and t.elts[2].func.attr == "raw_get" and isinstance(t.elts[2].func.value, ast.Name) and \
-            rd.reaching(t.elts[2].func.value.id, n.id) == {nn.id} and \
-            [CF(x) for x in t.elts[2].args] == [rowvar]
+        e2 = H.expand(fn, t.elts[2], pure_only=False, stop=keep)
+        # where the third element is evaluated (a local bound just before, or the append itself)
+        rb_at = n.id
+        if isinstance(t.elts[2], ast.Name):
+          ds = rd.reaching(t.elts[2].id, n.id)
+          rb_at = next(iter(ds)) if len(ds) == 1 and H.ReachDefs.ENTRY not in ds else None
+        readback = isinstance(e2, ast.Call) and isinstance(e2.func, ast.Attribute) \
+            and e2.func.attr == "raw_get" and isinstance(e2.func.value, ast.Name) and \
+            rb_at is not None and rd.reaching(e2.func.value.id, rb_at) == {nn.id} and \
+            [CF(x) for x in e2.args] == [rowvar]
         if e[0] == rowvar and e[1] == c_old and (e[2] == c_new or readback):
-          recs.append((n, c.func.value.id, readback))
+          recs.append((n, c.func.value.id, readback, rb_at))
   ok_set = bool(sets) and not (H.reach_assuming(cfg, first, differs, removed=sets) & stops)
   run.ob(R1, fn.qualname, "%s.set(%s, <converted value>)" % (newv, rowvar),
          "every differing row gets its converted value stored in the new column", ok_set, fi=fn.fi)
@@ -229,7 +235,8 @@ def r1_user_level(run, w):
     # the stored value is read back: that must happen after the set
     run.ob(R1, fn.qualname, "set before the read-back of the stored value",
            "the recorded new value is what the column holds after the write",
-           cfg.dominated_by(recs[0][0].id, sets), fi=fn.fi)
+           cfg.dominated_by(recs[0][3], sets) and not (sets & cfg.reach_after(
+             {recs[0][3]}, removed={lp.id})), fi=fn.fi)
   cdn = rd.reaching(chv, recs[0][0].id)
   ok = bool(cdn) and H.ReachDefs.ENTRY not in cdn and \
       all(H._empty_container(H.def_value(cfg, c)) == "list" and cfg.dominated_by(lp.id, {c})
@@ -241,7 +248,7 @@ def r1_user_level(run, w):
   adds = [(n, c) for (n, c, nm) in fn.calls() if E.is_summary_add_changes(c, nm, fn)]
   ok = False
   an = None
-  nonempty = lambda e: True if isinstance(e, ast.Name) and e.id == chv else None
+  nonempty = lambda e: H.nonempty_value(fn, e, chv)
   if len(adds) == 1:
     an, ac = adds[0]
     afi = w.repo.func("action_summary.ActionSummary.add_changes")
@@ -257,11 +264,35 @@ def r1_user_level(run, w):
          "the recorded changes reach the action summary (from which stored and undo actions are "
          "made) whenever there are any, on every normal path after the loop", ok, fi=fn.fi)
   # flush when converting to a data column
-  fl = [(n, c) for (n, c, nm) in fn.calls()
-        if endswith(nm, "out_actions.flush_calc_changes_for_column")]
+  is_flush = lambda c, nm, f: endswith(nm, "out_actions.flush_calc_changes_for_column")
+  ffi = w.repo.func("action_obj.ActionGroup.flush_calc_changes_for_column")
+  fl = []          # (node in this function, [table argument, column argument] as seen here)
+  for (n, c, nm) in fn.calls():
+    if is_flush(c, nm, fn):
+      try:
+        fl.append((n, [H.arg_of(c, ffi, p) for p in ffi.params()[1:3]]))
+      except AnalysisError:
+        fl.append((n, [None, None]))
+    else:
+      hfi = H.self_method(w, fn, c)
+      if hfi is not None and hfi.qualname != fn.qualname:
+        h = w.fn_of(hfi)
+        inner = [(n2, c2) for (n2, c2, nm2) in h.calls() if is_flush(c2, nm2, h)]
+        if len(inner) == 1 and h.cfg.dominated_by(h.cfg.exit.id, {inner[0][0].id}):
+          # the helper always flushes: its table / column arguments are parameters bound here
+          try:
+            iargs = [H.arg_of(inner[0][1], ffi, p) for p in ffi.params()[1:3]]
+            outer = []
+            for a in iargs:
+              a = H.deref(h, a) if a is not None else None
+              outer.append(H.arg_of(c, hfi, a.id) if isinstance(a, ast.Name) and
+                           a.id in hfi.params() and not DefUse(h).rebinders(a.id) else None)
+          except AnalysisError:
+            outer = [None, None]
+          fl.append((n, outer))
   ok = False
   if len(fl) == 1 and an is not None:
-    fnode, fc = fl[0]
+    fnode, fargs = fl[0]
     def is_to_formula_def(d):
       d = H.strip_bool(d) if d is not None else None
       return isinstance(d, ast.Call) and isinstance(d.func, ast.Attribute) and \
@@ -272,11 +303,6 @@ def r1_user_level(run, w):
     early = all(H.unrebound_at(fn, du, p_info, x) for tf in tfs for x in du.defs[tf])
     data_col = lambda e: False if (isinstance(e, ast.Name) and e.id in tfs) or \
         is_to_formula_def(e) else None
-    ffi = w.repo.func("action_obj.ActionGroup.flush_calc_changes_for_column")
-    try:
-      fargs = [H.arg_of(fc, ffi, p) for p in ffi.params()[1:3]]
-    except AnalysisError:
-      fargs = [None]
     ok = early and all(a is not None for a in fargs) and \
         [H.canon(fn, a) for a in fargs] == [p_table, p_col] and \
         fnode.id in cfg.reach_after({an.id}) and an.id not in cfg.reach_after({fnode.id}) and \
